@@ -6,6 +6,8 @@ mod output;
 mod precompiles;
 mod stack;
 mod system;
+#[cfg(feature = "verif-hooks")]
+pub mod verif;
 
 #[cfg(test)]
 pub mod test_util;
